@@ -259,4 +259,23 @@ def run(ctx, ck):
         ok = len(cs) == 1 and fl.cfg.must_pass(fl.cfg.exit.id, {fl.node_id_of(cs[0])})
         ck.ob('R-EXH.rows', '%s|section %s' % (f.qual, sname), ok, f.loc(cs[0] if cs else None),
               'section written exactly once on every path')
+    # format_float: characters may only be cut from a text that has a decimal point (cutting an
+    # integer text drops significant digits: 227364204 -> 22736420)
+    ck.rule('R-FMT.truncate-guard', 'format_float only truncates texts that contain a decimal point')
+    ff = m.func('util.format_float')
+    cuts = [s_ for s_ in walk_no_nested(ff.node) if isinstance(s_, ast.Assign) and
+            isinstance(s_.value, ast.Subscript) and isinstance(s_.value.slice, ast.Slice) and
+            s_.value.slice.upper is not None and isinstance(s_.targets[0], ast.Name) and
+            norm(s_.value.value) == s_.targets[0].id]
+    ck.floor('truncating slices in format_float', len(cuts), 1)
+    ffl = ctx.flow(ff)
+    from ..cfg import if_chain_preds
+    for c_ in cuts:
+        v = c_.targets[0].id
+        g = [t for t, b in if_chain_preds(ffl.cfg, ffl.node_id_of(c_)) if b]
+        ok = ("'.' in %s" % v) in g
+        ck.ob('R-FMT.truncate-guard', 'util.format_float|%s' % norm(c_), ok, ff.loc(c_),
+              'truncation %s under guards %s' % (norm(c_), g) if ok else
+              'truncation %s is not guarded by a decimal-point test (guards %s): integers of more than '
+              '8 digits lose trailing digits' % (norm(c_), g))
     ck.undecided += ['format_float digit accuracy over all magnitudes (run-time precision/truncation)']
